@@ -44,13 +44,19 @@ def main():
         srcabs = os.path.abspath(src)
         stubs = " ".join(f"-I{os.path.join(srcabs, d)}" for d in sorted(os.listdir(srcabs)) if os.path.isdir(os.path.join(srcabs, d)))
         extra = f"-I{wt}/include/m17cxx -I{wt}/apps -I{srcabs} {stubs} -pthread -lcodec2 -lboost_program_options"
-        rc0, o0 = sh(f"g++ -std=c++20 -I{wt}/include -I{wt} {demo} -o {wt}/_b/demo0 {extra} && {wt}/_b/demo0", timeout=900)
+        script = os.path.join(srcabs, "demo.sh")
+        use_script = (not os.path.exists(demo)) and os.path.exists(script)      # a demonstration script, run from the tree's root
+        def run_demo(tag):
+            if use_script:
+                return sh(f"cd {wt} && bash {script}", timeout=900)
+            return sh(f"g++ -std=c++20 -I{wt}/include -I{wt} {demo} -o {wt}/_b/demo{tag} {extra} && {wt}/_b/demo{tag}", timeout=900)
+        rc0, o0 = run_demo(0)
         meta["demo_without_patch_exit"] = rc0
         rc, out = sh(f"git -C {wt} apply {os.path.abspath(src)}/patch.diff")
         if rc != 0:
             print("patch does not apply:", out); return 1
         mut = ctest(wt)
-        rc1, o1 = sh(f"g++ -std=c++20 -I{wt}/include -I{wt} {demo} -o {wt}/_b/demo1 {extra} && {wt}/_b/demo1", timeout=900)
+        rc1, o1 = run_demo(1)
         meta["demo_with_patch_exit"] = rc1
         meta["tests_passed_baseline"] = len(base)
         meta["tests_passed_with_patch"] = len(mut)
@@ -84,7 +90,7 @@ def main():
     dst = os.path.join(DEST, "seeded", sid)
     os.makedirs(dst, exist_ok=True)
     extra_files = [f for f in os.listdir(src) if f.endswith((".h", ".hpp", ".inc")) and os.path.isfile(os.path.join(src, f))]
-    for f in ["patch.diff", "demo.cpp", "notes.md"] + extra_files:
+    for f in ["patch.diff", "demo.cpp", "demo.sh", "notes.md"] + extra_files:
         if os.path.exists(os.path.join(src, f)) and os.path.abspath(os.path.join(src, f)) != os.path.abspath(os.path.join(dst, f)):
             shutil.copy(os.path.join(src, f), os.path.join(dst, f))
     for d in os.listdir(src):
